@@ -23,6 +23,14 @@ import (
 // hp: a hedge policy with the abort conditions as cancel conditions accepted the first result (1) or hedged (0).
 type classifySlice struct {
 	handle, abort string
+	// the policies live as long as the configuration: classification must not depend on what a policy has seen before
+	fb      fallback.Fallback[int]
+	cb      circuitbreaker.CircuitBreaker[int]
+	cbB     circuitbreaker.CircuitBreakerBuilder[int]
+	rp      retrypolicy.RetryPolicy[int]
+	hp      hedgepolicy.HedgePolicy[int]
+	aborted bool
+	hedged  bool
 }
 
 func init() {
@@ -36,25 +44,41 @@ func (s *classifySlice) exec(t []string) string {
 	switch t[0] {
 	case "cfg":
 		s.handle, s.abort = t[1], t[2]
+		fbB := fallback.BuilderWithResult[int](7777)
+		applyConds(s.handle, func(e ...error) { fbB.HandleErrors(e...) }, func(a ...any) { fbB.HandleErrorTypes(a...) }, func(r int) { fbB.HandleResult(r) }, func(p func(int, error) bool) { fbB.HandleIf(p) })
+		s.fb = fbB.Build()
+		cbB := circuitbreaker.Builder[int]().WithFailureThreshold(100)
+		applyConds(s.handle, func(e ...error) { cbB.HandleErrors(e...) }, func(a ...any) { cbB.HandleErrorTypes(a...) }, func(r int) { cbB.HandleResult(r) }, func(p func(int, error) bool) { cbB.HandleIf(p) })
+		s.cbB, s.cb = cbB, cbB.Build()
+		rpB := retrypolicy.Builder[int]().WithMaxRetries(1)
+		applyConds(s.handle, func(e ...error) { rpB.HandleErrors(e...) }, func(a ...any) { rpB.HandleErrorTypes(a...) }, func(r int) { rpB.HandleResult(r) }, func(p func(int, error) bool) { rpB.HandleIf(p) })
+		applyConds(s.abort, func(e ...error) { rpB.AbortOnErrors(e...) }, func(a ...any) { rpB.AbortOnErrorTypes(a...) }, func(r int) { rpB.AbortOnResult(r) }, func(p func(int, error) bool) { rpB.AbortIf(p) })
+		rpB.OnAbort(func(failsafe.ExecutionEvent[int]) { s.aborted = true })
+		s.rp = rpB.Build()
+		// the hedge delay must comfortably exceed the time an instant attempt needs to deliver its result
+		hpB := hedgepolicy.BuilderWithDelay[int](20 * time.Millisecond).WithMaxHedges(1)
+		applyConds(s.abort, func(e ...error) { hpB.CancelOnErrors(e...) }, func(a ...any) { hpB.CancelOnErrorTypes(a...) }, func(r int) { hpB.CancelOnResult(r) }, func(p func(int, error) bool) { hpB.CancelIf(p) })
+		hpB.OnHedge(func(failsafe.ExecutionEvent[int]) { s.hedged = true })
+		s.hp = hpB.Build()
 		return ""
+	case "deep":
+		// result conditions compare by deep equality: a result that is a distinct allocation with equal contents matches
+		return deepRow(t[1], t[2] == "eq")
 	case "o", "oh":
 		val := int(atoi(t[1]))
 		err := parseErrTree(t[2])
 		fn := func() (int, error) { return val, err }
 
-		fbB := fallback.BuilderWithResult[int](7777)
-		applyConds(s.handle, func(e ...error) { fbB.HandleErrors(e...) }, func(a ...any) { fbB.HandleErrorTypes(a...) }, func(r int) { fbB.HandleResult(r) }, func(p func(int, error) bool) { fbB.HandleIf(p) })
 		fbApplied := 0
-		if r, _ := failsafe.Get(fn, fbB.Build()); r == 7777 {
+		if r, _ := failsafe.Get(fn, s.fb); r == 7777 {
 			fbApplied = 1
 		}
 
-		cbB := circuitbreaker.Builder[int]().WithFailureThreshold(100)
-		applyConds(s.handle, func(e ...error) { cbB.HandleErrors(e...) }, func(a ...any) { cbB.HandleErrorTypes(a...) }, func(r int) { cbB.HandleResult(r) }, func(p func(int, error) bool) { cbB.HandleIf(p) })
-		cb := cbB.Build()
-		failsafe.Get(fn, failsafe.Policy[int](cb))
-		cbFail := int(cb.Metrics().Failures())
+		before := s.cb.Metrics().Failures()
+		failsafe.Get(fn, failsafe.Policy[int](s.cb))
+		cbFail := int(s.cb.Metrics().Failures() - before)
 		// the standalone recording API classifies (zero, err) resp. (val, nil)
+		cbB := s.cbB
 		cb2 := cbB.Build()
 		if err != nil {
 			cb2.RecordError(err)
@@ -73,15 +97,11 @@ func (s *classifySlice) exec(t []string) string {
 			}
 		}
 
-		rpB := retrypolicy.Builder[int]().WithMaxRetries(1)
-		applyConds(s.handle, func(e ...error) { rpB.HandleErrors(e...) }, func(a ...any) { rpB.HandleErrorTypes(a...) }, func(r int) { rpB.HandleResult(r) }, func(p func(int, error) bool) { rpB.HandleIf(p) })
-		applyConds(s.abort, func(e ...error) { rpB.AbortOnErrors(e...) }, func(a ...any) { rpB.AbortOnErrorTypes(a...) }, func(r int) { rpB.AbortOnResult(r) }, func(p func(int, error) bool) { rpB.AbortIf(p) })
-		aborted := false
-		rpB.OnAbort(func(failsafe.ExecutionEvent[int]) { aborted = true })
+		s.aborted = false
 		inv := 0
-		failsafe.Get(func() (int, error) { inv++; return val, err }, rpB.Build())
+		failsafe.Get(func() (int, error) { inv++; return val, err }, s.rp)
 		rp := "F0"
-		if aborted {
+		if s.aborted {
 			rp = "F1A1"
 		} else if inv == 2 {
 			rp = "F1A0"
@@ -89,14 +109,10 @@ func (s *classifySlice) exec(t []string) string {
 
 		hp := "-"
 		if t[0] == "oh" {
-			// the hedge delay must comfortably exceed the time an instant attempt needs to deliver its result
-			hpB := hedgepolicy.BuilderWithDelay[int](20 * time.Millisecond).WithMaxHedges(1)
-			applyConds(s.abort, func(e ...error) { hpB.CancelOnErrors(e...) }, func(a ...any) { hpB.CancelOnErrorTypes(a...) }, func(r int) { hpB.CancelOnResult(r) }, func(p func(int, error) bool) { hpB.CancelIf(p) })
-			hedged := false
-			hpB.OnHedge(func(failsafe.ExecutionEvent[int]) { hedged = true })
-			failsafe.Get(func() (int, error) { return val, err }, hpB.Build())
+			s.hedged = false
+			failsafe.Get(func() (int, error) { return val, err }, s.hp)
 			hp = "1"
-			if hedged {
+			if s.hedged {
 				hp = "0"
 			}
 		}
@@ -170,6 +186,7 @@ func genClassify(r *rand.Rand, n int, tier string, emit func(string) string) {
 	for c := 0; c < n; c++ {
 		emit(fmt.Sprintf("case classify-%d", c))
 		emit(fmt.Sprintf("classify cfg %s %s", genCondList(r), genCondList(r)))
+		emit(fmt.Sprintf("classify deep %s %s", pick(r, "ptr", "slice", "map", "holder", "iface", "string"), pick(r, "eq", "ne")))
 		for i := 0; i < outcomes; i++ {
 			e := "-"
 			if r.Intn(3) != 0 {
@@ -182,4 +199,79 @@ func genClassify(r *rand.Rand, n int, tier string, emit func(string) string) {
 			emit(fmt.Sprintf("classify %s %d %s", op, r.Intn(3), e))
 		}
 	}
+}
+
+type deepPt struct {
+	A int
+	B []int
+}
+
+type deepHolder struct {
+	P *deepPt
+	S string
+}
+
+// deepObserve runs (outcome, nil) through a retry policy (HandleResult, AbortOnResult), a breaker and a fallback configured
+// with the target result, for result type R.
+func deepObserve[R any](target, outcome R, fbVal R, isFb func(R) bool) string {
+	fn := func() (R, error) { return outcome, nil }
+	inv := 0
+	failsafe.Get(func() (R, error) { inv++; return outcome, nil }, retrypolicy.Builder[R]().WithMaxRetries(1).HandleResult(target).Build())
+	aborted := false
+	failsafe.Get(fn, retrypolicy.Builder[R]().WithMaxRetries(1).HandleIf(func(R, error) bool { return true }).AbortOnResult(target).
+		OnAbort(func(failsafe.ExecutionEvent[R]) { aborted = true }).Build())
+	cb := circuitbreaker.Builder[R]().WithFailureThreshold(10).HandleResult(target).Build()
+	failsafe.Get(fn, failsafe.Policy[R](cb))
+	r, _ := failsafe.Get(fn, fallback.BuilderWithResult[R](fbVal).HandleResult(target).Build())
+	b := func(x bool) int {
+		if x {
+			return 1
+		}
+		return 0
+	}
+	return fmt.Sprintf("rp=%d ab=%d cb=%d fb=%d", b(inv == 2), b(aborted), cb.Metrics().Failures(), b(isFb(r)))
+}
+
+func deepRow(kind string, eq bool) string {
+	switch kind {
+	case "ptr":
+		out := &deepPt{1, []int{2, 3}}
+		if !eq {
+			out = &deepPt{1, []int{2, 4}}
+		}
+		fbv := &deepPt{A: 99}
+		return deepObserve(&deepPt{1, []int{2, 3}}, out, fbv, func(r *deepPt) bool { return r == fbv })
+	case "slice":
+		out := []int{1, 2, 3}
+		if !eq {
+			out = []int{1, 2}
+		}
+		return deepObserve([]int{1, 2, 3}, out, []int{99}, func(r []int) bool { return len(r) == 1 && r[0] == 99 })
+	case "map":
+		out := map[string]int{"a": 1}
+		if !eq {
+			out = map[string]int{"a": 2}
+		}
+		return deepObserve(map[string]int{"a": 1}, out, map[string]int{"fb": 1}, func(r map[string]int) bool { return r["fb"] == 1 })
+	case "holder":
+		// a comparable struct that holds a pointer
+		out := deepHolder{&deepPt{A: 5}, "x"}
+		if !eq {
+			out = deepHolder{&deepPt{A: 6}, "x"}
+		}
+		return deepObserve(deepHolder{&deepPt{A: 5}, "x"}, out, deepHolder{S: "fb"}, func(r deepHolder) bool { return r.S == "fb" })
+	case "iface":
+		var target, out any = &deepPt{A: 7}, &deepPt{A: 7}
+		if !eq {
+			out = &deepPt{A: 8}
+		}
+		return deepObserve(target, out, any("fb"), func(r any) bool { return r == "fb" })
+	case "string":
+		out := strings.Repeat("ab", 3)
+		if !eq {
+			out = "ababab!"
+		}
+		return deepObserve("ababab", out, "fb", func(r string) bool { return r == "fb" })
+	}
+	return "bad-kind"
 }
